@@ -165,7 +165,7 @@ def gen_ring(ctx):
     allgets = gets
     # exhaustive: every sequence of <= 5 Sets (3 ids incl. the zero id, 2 addresses), all ids read after every Set
     for cap in (0, 1, 2):
-        for n in range(0, 6):
+        for n in range(0, 6 if (cap or thorough) else 5):
             for seq in itertools.product(sets, repeat=n):
                 ops = list(allgets)
                 for s in seq:
